@@ -249,6 +249,28 @@ class SHex(Sym):
         return "SHex(%d)" % len(self.upper)
 
 
+def shex_or_str(cells, upper):
+    """collapse a hex string whose bits and letter cases are all concrete"""
+    out = []
+    for i in range(len(upper)):
+        v = 0
+        for c in cells[4 * i: 4 * i + 4]:
+            if isinstance(c, IRef):
+                return SHex(cells, upper)
+            b = B.norm(c)
+            if not isinstance(b, int):
+                return SHex(cells, upper)
+            v = v * 2 + b
+        u = upper[i]
+        if not isinstance(u, bool):
+            if v >= 10:
+                return SHex(cells, upper)
+            u = True
+        ch = "0123456789ABCDEF"[v]
+        out.append(ch if u else ch.lower())
+    return "".join(out)
+
+
 class SChr(Sym):
     """one character given by its code point (python int or z3 Int).
     lut = (index term, first index, [code points]) when the character is a constant table
